@@ -915,7 +915,10 @@ namespace occa {
   }
 
   void dtypeTuple_t::addFlatDtypes(dtypeVector_t &vec) const {
-    for (int i = 0; i < size; ++i) {
+    // An array of unknown length (size < 0, e.g. `T a[]`) is some repetition
+    // of its entry type: one period describes it
+    const int entries = (size < 0) ? 1 : size;
+    for (int i = 0; i < entries; ++i) {
       dtype.addFlatDtypes(vec);
     }
   }
